@@ -217,6 +217,7 @@ type c14TqCase struct {
 	Query  string  `json:"query"`
 	Ctxs   []tqctx `json:"contexts"`
 	Dirty  bool    `json:"dirty"`
+	Kind   string  `json:"kind"` // "" / "plan": Plan (search; compared with the state-machine model too); "eval": PlanEval (complexity evaluation); "tags" / "values": PlanTagsV2 / PlanValuesV2 — oracle only
 }
 
 // contexts of the portions of one complex search, as ComplexRequestProcessor.Process sets them
@@ -296,7 +297,13 @@ func c14GenTqCase(r *h.Rng) c14TqCase {
 		// a term the planner rejects at Process time: the failed execution must leave nothing behind
 		q = strings.Replace(q, "}", h.Pick(r, []string{` && foo="x"}`, ` || .c=1h}`, ` && duration>"x"}`}), 1)
 	}
-	cs := c14TqCase{Stream: "reexec-traceql", Query: q, Dirty: r.Chance(40)}
+	cs := c14TqCase{Stream: "reexec-traceql", Query: q, Dirty: r.Chance(40), Kind: "plan"}
+	if r.Chance(20) {
+		cs.Kind = h.Pick(r, []string{"eval", "eval", "tags", "values"})
+		if cs.Kind != "eval" {
+			cs.Query = tqSelector(r, 2) // the tags/values planners refuse chains
+		}
+	}
 	switch r.Intn(10) {
 	case 0, 1, 2, 3, 4:
 		cs.Ctxs = c14PortionCtxs(r)
@@ -309,12 +316,20 @@ func c14GenTqCase(r *h.Rng) c14TqCase {
 }
 
 // Plan panics on a script ending in an operator (nil Tail): an error for this purpose
-func c14PlanTq(script *traceql_parser.TraceQLScript) (p shared.SQLRequestPlanner, err error) {
+func c14PlanTq(script *traceql_parser.TraceQLScript, kind string) (p shared.SQLRequestPlanner, err error) {
 	defer func() {
 		if e := recover(); e != nil {
 			err = fmt.Errorf("panic: %v", e)
 		}
 	}()
+	switch kind {
+	case "eval":
+		return clickhouse_transpiler.PlanEval(script)
+	case "tags":
+		return clickhouse_transpiler.PlanTagsV2(script)
+	case "values":
+		return clickhouse_transpiler.PlanValuesV2(script, "k")
+	}
 	return clickhouse_transpiler.Plan(script)
 }
 
@@ -326,7 +341,7 @@ func c14RunTq(r *h.Result, cs c14TqCase) (op, impl string, ok bool) {
 		return "", "", false
 	}
 	var texts []string
-	p, perr := c14PlanTq(script)
+	p, perr := c14PlanTq(script, cs.Kind)
 	for i, c := range cs.Ctxs {
 		if perr != nil {
 			texts = append(texts, "ERR")
@@ -340,7 +355,7 @@ func c14RunTq(r *h.Result, cs c14TqCase) (op, impl string, ok bool) {
 		// oracle: a fresh translation of the same text for the same context
 		fresh := "ERR"
 		if s2, err := traceql_parser.Parse(cs.Query); err == nil {
-			if p2, err := c14PlanTq(s2); err == nil {
+			if p2, err := c14PlanTq(s2, cs.Kind); err == nil {
 				fresh = c14Text(p2, c.planner())
 			}
 		}
@@ -381,6 +396,11 @@ func c14RunTq(r *h.Result, cs c14TqCase) (op, impl string, ok bool) {
 	if strings.Contains(strings.Join(texts, ","), "ERR") {
 		r.Count("reexec-traceql:with-error-execution")
 	}
+	if cs.Kind != "" && cs.Kind != "plan" {
+		r.Count("reexec-traceql:planner:" + cs.Kind)
+		return "", "", false
+	}
+	r.Count("reexec-traceql:planner:plan")
 	ser, err := serTraceQL(script)
 	if err != nil {
 		r.Count("reexec-traceql:outside-model-fragment")
@@ -394,7 +414,7 @@ func c14RunTq(r *h.Result, cs c14TqCase) (op, impl string, ok bool) {
 }
 
 func c14TraceQL(r *h.Result, rng *h.Rng, n int) error {
-	r.Stream("reexec-traceql: one real clickhouse_transpiler plan processed once per context — contexts as the portions of a complex search (RandomFilter, CachedTraceIds growing, From advancing), plain re-execution, mixed; incl. queries whose Process fails; 40 %: garbage written by reflection into sqlConds/where/alias/fCmpVal before executions 2..k — every execution vs a fresh translation (oracle) and vs TraceQL.runsT (state machine, byte-equal)")
+	r.Stream("reexec-traceql: one real clickhouse_transpiler plan (80 % Plan; 20 % PlanEval / PlanTagsV2 / PlanValuesV2, oracle only) processed once per context — contexts as the portions of a complex search (RandomFilter, CachedTraceIds growing, From advancing), plain re-execution, mixed; incl. queries whose Process fails; 40 %: garbage written by reflection into sqlConds/where/alias/fCmpVal before executions 2..k — every execution vs a fresh translation (oracle) and vs TraceQL.runsT (state machine, byte-equal)")
 	var ops, impl []string
 	var cases []any
 	for i := 0; i < n; i++ {
